@@ -551,7 +551,25 @@ class AutoImport:
         if self._is_python_file(resource):
             self.update_resource(resource)
 
+    def _del_folder(self, folder: Resource):
+        """Forget the names of every module below `folder`."""
+        modname = self._resource_to_module(folder).modname
+        self._del_if_exist(modname, commit=False)
+        prefix = modname + "."
+        self._execute(models.Name.delete_by_module_prefix, (prefix, prefix))
+        self.connection.commit()
+
+    def _update_folder(self, folder: Resource):
+        for file in folder.get_files():
+            self._changed(file)
+        for subfolder in folder.get_folders():
+            self._update_folder(subfolder)
+
     def _moved(self, resource: Resource, newresource: Resource):
+        if resource.is_folder():
+            self._del_folder(resource)
+            self._update_folder(newresource)
+            return
         # only Python files are indexed: a file may become one, or stop
         # being one, by being renamed
         if self._is_python_file(resource):
@@ -611,6 +629,9 @@ class AutoImport:
         return existing
 
     def _removed(self, resource):
+        if resource.is_folder():
+            self._del_folder(resource)
+            return
         if self._is_python_file(resource):
             modname = self._resource_to_module(resource).modname
             self._del_if_exist(modname)
